@@ -4,13 +4,17 @@
 (* every byte group re-packs to itself.  8 values per group.                   *)
 EXTENDS DilithiumPack, TLC
 CONSTANTS Kind, ValStride
-VARIABLES lane, v, nb, phase
+VARIABLES lane, v, nb, phase, vhi
 W == Width(Kind)
 MaxV == 2^W - 1
-VSet == {x \in 0..MaxV : x % ValStride = 0 \/ x = MaxV \/ x \in {1, 2, 255, 256}}
-Init == lane = 1 /\ v = 0 /\ nb = 0 /\ phase = 0
-Next == \/ phase = 0 /\ lane' \in 1..8 /\ nb' \in {0, MaxV} /\ phase' = 1 /\ UNCHANGED v
-        \/ phase = 1 /\ v' \in VSet /\ phase' = 2 /\ UNCHANGED <<lane, nb>>
+Keep(x) == x % ValStride = 0 \/ x = MaxV \/ x \in {1, 2, 255, 256}
+\* values are chosen in two steps (block of 1024, then value): one set of 2^20 successors exceeds TLC's set bound
+\* and would be enumerated by a single worker
+Blocks == 0..(MaxV \div 1024)
+Block(b) == {x \in (b * 1024)..(IF b * 1024 + 1023 < MaxV THEN b * 1024 + 1023 ELSE MaxV) : Keep(x)}
+Init == lane = 1 /\ v = 0 /\ nb = 0 /\ phase = 0 /\ vhi = 0
+Next == \/ phase = 0 /\ lane' \in 1..8 /\ nb' \in {0, MaxV} /\ vhi' \in Blocks /\ phase' = 1 /\ UNCHANGED v
+        \/ phase = 1 /\ v' \in Block(vhi) /\ phase' = 2 /\ UNCHANGED <<lane, nb, vhi>>
 Vals == [i \in 1..8 |-> IF i = lane THEN v ELSE nb]
 RoundTrip == phase = 2 =>
   /\ UnpackBits(W, 8, PackBits(W, Vals)) = Vals
